@@ -106,7 +106,7 @@ func (r *Route) addTarget(service string, targetURL *url.URL, fixedWeight float6
 				err.Error())
 		}
 
-		t.AuthScheme = opts["auth"]
+		t.AuthScheme, t.authRequired = opts["auth"]
 	}
 
 	r.Targets = append(r.Targets, t)
